@@ -2,11 +2,13 @@
 //! Every subcommand drives the real library (path dependency on /repo) and writes NDJSON
 //! traces that the Trace*.tla modules validate, or replays TLC-generated behaviours.
 
+mod api;
 mod cfgcmd;
 mod comp;
 mod enc;
 mod fill;
 mod gen;
+mod headers;
 mod par;
 mod parcmd;
 mod sched;
@@ -97,6 +99,8 @@ fn main() {
         "fill" => fill::cmd_fill(&a),
         "cfg07" => cfgcmd::cmd_cfg07(&a),
         "comp" => comp::cmd_comp(&a),
+        "api" => api::cmd_api(&a),
+        "headers" => headers::cmd_headers(&a),
         "cfg19" => cfgcmd::cmd_cfg19(&a),
         other => {
             eprintln!("unknown subcommand {other:?}");
